@@ -527,8 +527,11 @@ def run_routine(plan, ctx, script=None, strict=False, N_override=None, quiet_ora
         spies.wrap(evm.crossval, 'crossval')
         obs.real = real
         fit_arg = fitters if any(f is not None for f in fitters) else None
-        if fit_arg is not None:
+        if fit_arg is not None and o.get('theta_seed', 0) % 2:
             fit_arg = [f if f is not None else m.default_fitter for f, m in zip(fitters, models)]
+        elif fit_arg is not None:
+            fit_arg = list(fitters)      # (None entries stay in the list: those models use their default fitter, the others the one given)
+            ctx.probe('fitter_list_with_none_entries' if any(f is None for f in fit_arg) else 'fitter_list_complete')
         kw = {}
         if routine == 'eval_fixed':
             res = evm.eval_fixed(_marg(plan, models), data, theta=thetas, method=method)
